@@ -8,6 +8,7 @@ import (
 	"regexp"
 	"strconv"
 	"strings"
+	"sync/atomic"
 	"time"
 )
 
@@ -181,6 +182,11 @@ func (c *Ctx) Finish() int {
 	}
 	if ra := os.Getenv("VERIF_RACE_AUDIT"); ra != "" {
 		c.Coverage["race_audit_free_running"] = ra
+	}
+	if n := atomic.LoadInt64(&WorkerTimeouts); n > 0 {
+		// wall-clock limits of the machinery were hit: those tasks were not decided
+		c.Coverage["worker_wallclock_timeouts"] = n
+		c.Coverage["exhaustive"] = false
 	}
 	c.Coverage["known_findings_hit"] = c.Known
 	c.Coverage["unconfirmed"] = c.Unconf
